@@ -155,6 +155,39 @@ Proof.
   apply filter_ext. intros x. fold (dedup (seen pneg pre cur 0)). rewrite vmem_dedup. reflexivity.
 Qed.
 
+(* ------------------------------------------------------------------ scan *)
+
+(* the outputs of this tick are what the running scan over everything its lifetime has seen
+   ('tick: this tick; 'static: all ticks) adds to the outputs of the ticks before *)
+Definition scan_spec (p : pers) (init : val) (f : val -> val -> option (val * val)) : hspec :=
+  fun pre cur => [skipn (length (scan_out f [init] (kept p pre 0)))
+                        (scan_out f [init] (seen p pre cur 0))].
+
+Lemma scan_out_nil_state : forall f l, scan_out f [] l = [].
+Proof. intros f [|x r]; reflexivity. Qed.
+
+Lemma scan_out_app : forall f a b s,
+  scan_out f s (a ++ b) = scan_out f s a ++ scan_out f (fold_left (scan_ins f) a s) b.
+Proof.
+  intros f a. induction a as [|x a IH]; intros b s; cbn [app scan_out fold_left]; [reflexivity|].
+  destruct s as [|v s'].
+  - cbn [scan_ins]. assert (H : fold_left (scan_ins f) a [] = []).
+    { clear. induction a as [|y a IHa]; cbn [fold_left scan_ins]; [reflexivity | exact IHa]. }
+    rewrite H, scan_out_nil_state. reflexivity.
+  - cbn [scan_ins]. destruct (f v x) as [[a' o]|].
+    + cbn [app]. f_equal. apply IH.
+    + assert (H : fold_left (scan_ins f) a [] = []).
+      { clear. induction a as [|y a IHa]; cbn [fold_left scan_ins]; [reflexivity | exact IHa]. }
+      rewrite H, scan_out_nil_state. reflexivity.
+Qed.
+
+Theorem scan_correct : forall p init f h t, (t < length h)%nat ->
+  nth t (run_op (op_scan p init f) h) [] = tick_view (scan_spec p init f) h t.
+Proof.
+  intros p init f. apply named_correct. intros pre cur. rewrite acc1_spec. unfold scan_spec, seen.
+  rewrite scan_out_app. rewrite skipn_app_exact. reflexivity.
+Qed.
+
 (* ------------------------------------------------------------------ keyed aggregation *)
 
 Section Keyed.
@@ -397,12 +430,14 @@ Lemma named_operators_correct :
   (forall pl pr, op_correct_ (op_cross_join_multiset pl pr) (cross_join_multiset_spec pl pr)) /\
   (forall pp pn, op_correct_ (op_anti_join pp pn) (anti_join_spec pp pn)) /\
   (forall pp pn, op_correct_ (op_difference pp pn) (difference_spec pp pn)) /\
-  op_correct_ (op_zip Tick Tick) zip_tick_spec.
+  op_correct_ (op_zip Tick Tick) zip_tick_spec /\
+  op_correct_ op_zip_longest (fun _ cur => [vzip_longest (port 0 cur) (port 1 cur)]) /\
+  (forall p i f, op_correct_ (op_scan p i f) (scan_spec p i f)).
 Proof.
   assert (SL : forall g (sp : hspec), (forall pre cur, g cur = sp pre cur) -> op_correct_ (OStateless g) sp).
   { intros g sp H h t Ht. rewrite (stateless_correct g h t Ht). unfold tick_view, stateless_spec. apply H. }
   unfold op_map, op_filter, op_filter_map, op_flat_map, op_identity, op_union, op_tee, op_unzip,
-    op_partition, op_sort, op_sort_by_key, op_chain_first_n.
+    op_partition, op_sort, op_sort_by_key, op_chain_first_n, op_zip_longest.
   repeat split; intros; try (apply SL; intros; reflexivity); unfold op_correct_.
   - apply fold_correct.
   - apply reduce_correct.
@@ -419,6 +454,7 @@ Proof.
   - apply anti_join_correct.
   - apply difference_correct.
   - apply zip_tick_correct.
+  - apply scan_correct.
 Qed.
 
 Lemma named_meaning :
